@@ -244,6 +244,7 @@ func c17ifaces() [][]c17if {
 		{eth0("fe80::1/64")},                // no IPv4 address at all
 		{eth0()},                            // no address at all
 		{eth0("10.0.0.5/24"), eth1("fe80::2/64", "10.0.1.5/24"), tun0("10.8.0.2/24")},
+		{eth0("10.0.0.5/24"), eth1("169.254.10.1/16")}, // an IPv4 link-local subnet is a subnet like any other
 	}
 }
 
@@ -478,14 +479,14 @@ func c17reference(w c17world, target string, f c17flags) (accept []c17answer, ma
 
 func verifC17(c *drv.Ctx) {
 	defer vE2ECleanup()
-	targets := []string{"10.0.0.9", "10.0.1.0/24", "10.0.200.1", "10.0.0.0/20", "8.8.8.8", "10.8.0.0/28", "", "file+10.0.1.0/24", "file+10.8.0.0/28"}
+	targets := []string{"10.0.0.9", "10.0.1.0/24", "10.0.200.1", "10.0.0.0/20", "8.8.8.8", "10.8.0.0/28", "", "file+10.0.1.0/24", "file+10.8.0.0/28", "169.254.77.5"}
 	cmds := []struct {
 		name string
 		args []string
 		kind string
 	}{{"tcp-syn", []string{"tcp", "syn", "-p", "80"}, "tcp"}, {"icmp", []string{"icmp"}, "icmp"}, {"arp", []string{"arp"}, "arp"}, {"udp", []string{"udp", "-p", "53"}, "udp"}}
-	c.R.Rule = "host configurations = 14 interface sets (one or two Ethernet interfaces and a MAC-less tunnel, one or two addresses each in both orders, overlapping subnets on one and on two interfaces, an IPv6 address listed first, no IPv4 address, no address) x every applicable default-route set of 12 (none, one, two with different metrics in both dump orders, equal metrics, via the tunnel, metric 0, with a preferred-source attribute); " +
-		"targets {on-link host, on-link /24 of the second address, host inside the /16 only, /20 wider than a /24 that holds its base, off-link host, tunnel subnet, none (file mode), file mode with a subnet argument (on-link /24, tunnel subnet)} x --iface {absent, each interface} x --srcip {absent, 1.2.3.4, an IPv6 address (must be refused)} x --srcmac {absent, given}; command tcp syn for all, icmp/arp/udp for the flag-less and --iface cases (quick: every third world for those). " +
+	c.R.Rule = "host configurations = 15 interface sets (one with an IPv4 link-local 169.254/16 address, target 169.254.77.5) (one or two Ethernet interfaces and a MAC-less tunnel, one or two addresses each in both orders, overlapping subnets on one and on two interfaces, an IPv6 address listed first, no IPv4 address, no address) x every applicable default-route set of 12 (none, one, two with different metrics in both dump orders, equal metrics, via the tunnel, metric 0, with a preferred-source attribute); " +
+		"targets {on-link host, on-link /24 of the second address, host inside the /16 only, /20 wider than a /24 that holds its base, off-link host, tunnel subnet, none (file mode), file mode with a subnet argument (on-link /24, tunnel subnet)} x --iface {absent, each interface} x --srcip {absent, 1.2.3.4, 0.0.0.0 (the RFC 5227 probe form: still an override), an IPv6 address (must be refused)} x --srcmac {absent, given}; command tcp syn for all, icmp/arp/udp for the flag-less and --iface cases (quick: every third world for those). " +
 		"One end-to-end run of the real command each; observed: interface the socket is opened on, source MAC/IP and framing of the frame on the wire, or the error. Reference: table-driven reading of the statement with open ties (two attached interfaces, equal metrics, partial containment, IPv6 listed first, --srcmac on a MAC-less interface) accepted either way. non-trivial = configuration in which at least one answer is acceptable (not only failure)"
 	idx := 0
 	wi := 0
@@ -506,9 +507,12 @@ func verifC17(c *drv.Ctx) {
 						continue
 					}
 					for _, fi := range append([]string{""}, ifnames...) {
-						for _, fs := range []string{"", "1.2.3.4", "2001:db8::5"} {
+						for _, fs := range []string{"", "1.2.3.4", "2001:db8::5", "0.0.0.0"} {
 							for _, fm := range []string{"", "02:aa:bb:cc:dd:ee"} {
-								if ci > 0 && (fs != "" || fm != "") {
+								if ci > 0 && (fs != "" || fm != "") && !(cmd.kind == "arp" && fs == "0.0.0.0" && fm == "") {
+									continue
+								}
+								if fs == "0.0.0.0" && fm != "" {
 									continue
 								}
 								idx++
